@@ -7,6 +7,57 @@ from harness import blocks, codec, common
 JUNKS = [(0, 255), (0, 0x81), (37, 11), (101, 7)]       # all-0xFF, all-0x81 (undecodable in cp1252), two mixed
 
 
+def runs_of(dc):
+    """maximal runs of consecutive don't-care positions: [(start, length)]"""
+    out = []
+    for i in dc:
+        if out and out[-1][0] + out[-1][1] == i:
+            out[-1][1] += 1
+        else:
+            out.append([i, 1])
+    return out
+
+
+# contents a don't-care run (a string tail, a pad) may hold that LOOK like something: the rest of a wide (UTF-16)
+# string, another NUL-terminated text, a second terminator followed by text, spaces, a byte-order mark
+STRUCTURED = {
+    "rest of a UTF-16LE string": lambda n: (b"0\x00\x00\x00" + b"\xcd" * n)[:n],
+    "longer rest of a UTF-16LE string": lambda n: (b"a\x00m\x00 \x00\x00\x00" + b"\xab" * n)[:n],
+    "rest of a UTF-16BE string": lambda n: (b"\x00a\x00b\x00\x00" + b"\xcd" * n)[:n],
+    "another NUL-terminated text": lambda n: (b"left over\x00" * (n // 10 + 1))[:n],
+    "a second NUL, then text": lambda n: (b"\x00" + b"shadow" * (n // 6 + 1))[:n],
+    "spaces": lambda n: b" " * n,
+    "UTF-8 BOM and text": lambda n: (b"\xef\xbb\xbfname\x00" + b"\x00" * n)[:n],
+}
+
+
+def structured_fills(enc, dc):
+    rs = runs_of(dc)
+    for name, pat in STRUCTURED.items():
+        bb = bytearray(enc)
+        for st, ln in rs:
+            bb[st:st + ln] = pat(ln)
+        yield name, bytes(bb)
+
+
+def short_text_cases(chk):
+    """blocks whose fixed-width strings hold 0, 1, 2 or 3 characters (the tail starts right behind them)"""
+    rng = common.rng_for(chk.seed, "C12short")
+    out = []
+    for n in (0, 1, 2, 3):
+        lab = [0x33 + i for i in range(n)]
+        out.append(("OS", 1, [2, [], [[1, [], lab, [], lab, [[0, 0], [640, 480]]], [2, [], lab, [], [0x41], [[0, 0], [640, 480]]]]]))
+        out.append(("EV", 1, [2, 0, [[lab, 1, 1, [blocks.rf32(rng)]], [lab + [0x42], 1, 0, []]]]))
+        out.append(("EM", 1, [1, 1000, 0, 2, [3], [[lab, [blocks.rf32(rng), blocks.rf32(rng)]]]]))
+        out.append(("PC", 2, [1, [], [0], [[lab, [0, 0], [0] * 12, []]]]))
+        z3, z9 = [0, 0, 0], [0] * 9
+        out.append(("D3", 2, [1, 100, 0, 1, z3, z9, z3, 0, [], [[lab, [[1, 2, 3]]]]]))
+        out.append(("FT", 1, [1, 100, 0, 1, z3, z9, z3, [], [[lab, [[1, 2, 3, 4, 5, 6, 7, 8, 9]]]]]))
+    for k, f, v in out:
+        chk.count("short strings: " + k)
+    return out
+
+
 def check_cases(chk, cases):
     mres = codec.model_eval(cases, want=("wfb", "enc"))
     masks = codec.dc_mask(cases)
@@ -40,6 +91,21 @@ def check_cases(chk, cases):
                 chk.violation("model and implementation disagree on junked bytes",
                               dict(cj, correspondence="Fmt.encj/dec vs _build"), False)
                 break
+        else:
+            for name, bj in structured_fills(m["enc"], dc):
+                r = codec.impl_decode(kind, fmt, bj)
+                cj = dict(case, dont_care_filled_with=name, dont_care_positions=dc[:50])
+                if r.get("dec") is None:
+                    chk.violation("%s fmt=%d: decoding fails when every don't-care run holds %s: %s" %
+                                  (kind, fmt, name, r.get("dec_exc")), cj, True)
+                    break
+                if r["dec"] != base["dec"]:
+                    chk.violation("%s fmt=%d: decoded content depends on don't-care bytes (every run holding %s): %s" %
+                                  (kind, fmt, name, codec.fdiff(r["dec"], base["dec"])), cj, True)
+                    break
+                if r["reenc"] != base["reenc"] or r["reenc"] is None or len(r["reenc"]) != len(bj):
+                    chk.violation("%s fmt=%d: re-encoding after %s in the don't-care runs differs / changes size" % (kind, fmt, name), cj, True)
+                    break
 
 
 def check_capture(chk):
@@ -61,11 +127,15 @@ def check_capture(chk):
         if base.get("dec") is None:
             chk.violation("capture %s does not decode" % kind, {"capture_block": kind}, True)
             continue
+        variants = []
         for fill in (0x00, 0xFF, 0x81, None):
             bb = bytearray(b)
             for i in dc:
                 bb[i] = fill if fill is not None else (37 * i + 11) % 256
-            r = codec.impl_decode(kind, fmt, bytes(bb))
+            variants.append((fill, bytes(bb)))
+        variants += list(structured_fills(b, dc))
+        for fill, bb in variants:
+            r = codec.impl_decode(kind, fmt, bb)
             what = {"capture_block": kind, "fill": fill, "positions": dc[:50]}
             if r.get("dec") is None:
                 chk.violation("capture %s: decoding fails after re-assigning its %d don't-care bytes to %r: %s" %
@@ -88,12 +158,13 @@ def run(chk):
     chk.rule = ("valid blocks of all nine types: the model's free encoder writes the block with four junk patterns "
                 "(0xFF, 0x81, two position-dependent) in every don't-care position (reserved words, pads, the 256-byte "
                 "calibration pad, string tails); the library must decode each to the same fields as the zero-junk "
-                "encoding and re-encode to identical bytes of the same size; same for the 8 capture blocks with their "
+                "encoding and re-encode to identical bytes of the same size; then every run of don't-care bytes filled with content that looks like something (the rest of a UTF-16 string, another NUL-terminated text, a second NUL then text, spaces, a BOM), also on blocks whose strings hold 0-3 characters; same for the 8 capture blocks with their "
                 "don't-care positions (computed by the model) re-assigned; header/entries via the container module; "
                 "non-trivial = more than 8 don't-care bytes")
     check_cases(chk, codec.load_corpus("C12"))
     n = 700 if chk.tier == "quick" else 12000
     check_cases(chk, codec.gen_cases(chk, n, "C12"))
+    check_cases(chk, short_text_cases(chk))
     check_capture(chk)
     check_container(chk)
 
